@@ -144,7 +144,7 @@ CONFIGS = {
     'thorough': [{'retry': 30, 'hold': 180, 'idle_hold': 30}, {'retry': 10, 'hold': 90, 'idle_hold': 5},
                  {'retry': 40, 'hold': 9, 'idle_hold': 30}, {'retry': 30, 'hold': 0, 'idle_hold': 30}],
 }
-DEPTH = {'quick': 5, 'thorough': 7}
+DEPTH = {'quick': 6, 'thorough': 8}
 
 
 def run(tier, seed):
